@@ -128,7 +128,7 @@ Value& MemberINSERTExpression::value(Context& ctx) const
           if (a1.isNull())
             rv->insert(rv->begin() + p, Value(Value::type_integer));
           else
-            rv->insert(rv->begin() + p, Value(Integer(*a1.numeric())));
+            rv->insert(rv->begin() + p, Value(Value::toInteger(*a1.numeric())));
           return val;
         }
         else if (a1.type() == Type::NO_TYPE)
